@@ -322,14 +322,34 @@ func (c *xsyncMapOf[K, V]) Compute(
 // Returns the item or nil,
 // and a boolean indicating whether the key was found.
 func (c *xsyncMapOf[K, V]) GetAndDelete(k K) (V, bool) {
-	i, ok := c.items.LoadAndDelete(k)
-	if !ok {
-		var v V
-		return v, false
+	var (
+		zeroedV itemOf[V]
+		i       itemOf[V]
+		removed bool
+		live    bool
+	)
+	c.items.Compute(
+		k,
+		func(value itemOf[V], loaded bool) (itemOf[V], bool) {
+			if loaded {
+				i = value
+				removed = true
+				live = !i.expired()
+			}
+			// delete
+			return zeroedV, true
+		},
+	)
+	if !removed {
+		return zeroedV.v, false
 	}
 	ec := c.EvictedCallback()
 	if ec != nil {
 		ec(k, i.v)
+	}
+	if !live {
+		// the removed item had already expired
+		return zeroedV.v, false
 	}
 	return i.v, true
 }
